@@ -310,12 +310,12 @@ def build_driver(pid):
 # harness build (against /repo's working tree, hooks on)
 
 
-def build_harness(release=False, features=None):
+def build_harness(binname, release=False, features=None):
     lock_src = os.path.join(REPO, "Cargo.lock")
     lock_dst = os.path.join(HARNESS, "Cargo.lock")
     if not os.path.exists(lock_dst) and os.path.exists(lock_src):
         open(lock_dst, "wb").write(open(lock_src, "rb").read())
-    cmd = ["cargo", "build", "--offline", "--quiet"]
+    cmd = ["cargo", "build", "--offline", "--quiet", "--bin", binname]
     if release:
         cmd.append("--release")
     if features:
@@ -323,7 +323,7 @@ def build_harness(release=False, features=None):
     rc, out = sh(cmd, cwd=HARNESS, timeout=3000)
     if rc != 0:
         raise Broken("harness-build", out[-4000:])
-    return os.path.join(TARGET, "release" if release else "debug", "vh")
+    return os.path.join(TARGET, "release" if release else "debug", binname)
 
 
 # --------------------------------------------------------------------------
